@@ -17,7 +17,7 @@ import sympy as sp
 
 from ..core import Check, AnalysisError
 from .. import repoindex as ri
-from ..kpe import Interp, to_obj_array, S, OutsideFragment
+from ..kpe import Interp, to_obj_array, S, OutsideFragment, SymObj, ClassRef
 from .. import polyref as pr
 from ..polyref import PB, PA, PO, X
 
@@ -36,6 +36,7 @@ def run(tier):
     _b_races(chk)
     _c_kernels(chk, tier)
     _c_lists(chk, tier)
+    _c_facade_evaluate(chk)
     return chk
 
 
@@ -232,6 +233,30 @@ def _a_widths(chk, gdeg):
                       f"declared element type {tname} for {role} values cannot hold {need} (table degree {gdeg})", sample=f"{fname}: {tname} holds {role} values up to {need}", nontrivial=False)
     chk.floor("integer cast sites with an inferred role", n_sites, 2)
     chk.floor("declared integer element types in the layout module", n_decl, 3)
+
+
+def _c_facade_evaluate(chk):
+    """Evaluating a Hamiltonian object at a point hands that very point (complex points included - the complexified forms
+    are evaluated there) and the object's own blocks / tables to the list-level evaluator."""
+    HS_ = "hiten.algorithms.types.services.hamiltonian"
+    mod, cls = ri.find_def(HS_, "_HamiltonianDynamicsService")
+    seen = {}
+
+    def ev(ip_, a, k):
+        seen["args"] = a
+        return sp.Symbol("VALUE")
+
+    pt = to_obj_array([sp.Symbol(f"a{i}", real=True) + sp.I * sp.Symbol(f"b{i}", real=True) for i in range(6)])
+    svc = SymObj(ClassRef(mod, cls), {"poly_H": sp.Symbol("POLY_H"), "clmo": sp.Symbol("CLMO"), "_ndof": 3, "ndof": 3}, "hamdyn")
+    ip = Interp(overrides={"_polynomial_evaluate": ev})
+    ip.strict_real_casts = True
+    out = ip.apply(ip.getattr(svc, "evaluate"), [pt.copy()], {})
+    a = seen.get("args", [None, None, None])
+    got = list(to_obj_array(a[1])) if a[1] is not None else None
+    chk.check(out == sp.Symbol("VALUE") and a[0] == sp.Symbol("POLY_H") and a[2] == sp.Symbol("CLMO") and got == list(pt), "C06.c", f"{HS_}::_HamiltonianDynamicsService.evaluate",
+              f"Hamiltonian.evaluate hands {got} to the evaluator for the complex point {list(pt)} (a cast to a real dtype keeps the real part only)",
+              sample="evaluate(z) = _polynomial_evaluate(poly_H, z, clmo) for complex z")
+    chk.count("functions partially evaluated")
 
 
 # ------------------------------------------------------------------------------------------------ b
